@@ -125,6 +125,7 @@ def gen(t, tier):
         # boxes in opposite corners - their bounding box spans the grid, their area does not
         sc['coverage'] = ['shape', t.pick(['triangle', 'lshape', 'corners', 'corners2']), t.choice(1000)]
     sc['tz'] = t.pick(C.TIMEZONES)
+    sc['mtime_res'] = t.pick([None, None, None, 1.0, 2.0])      # granularity of the file system's time stamps
     return sc
 
 
@@ -204,6 +205,7 @@ def _run(sc, tape):
     sched = w.sched
     clock = w.clock
     w.fs.readdir_salt = sc['salt']
+    w.fs.mtime_res = sc.get('mtime_res')
 
     w.extra_patches.append((times, 'datetime', C.datetime_module(clock)))
     w.extra_patches.append((seeder, 'queue_class', SimQueue))
